@@ -149,3 +149,75 @@ def _atleast_1d(L, a):
         from .core import Arr
         return Arr((1,), lambda ix: a.f(()), a.dtype)
     return a
+
+
+# ---------------------------------------------------------------- plain numeric tables (numpy.loadtxt) and first occurrences
+@model('numpy.loadtxt')
+def _loadtxt(L, fname, ndmin=0, **kw):
+    """a whitespace-separated table of symbolic length read into a 2-d float array: file content
+    ('table2d', n, [column function, ...]); the numbers are those written in the file (assumed: the string layer)"""
+    files = L.ctx.ghost.setdefault('files', {})
+    v = files.get(fname)
+    if not (isinstance(v, tuple) and v[0] == 'table2d'):
+        raise Unsupported('loadtxt of a file without table content')
+    if ndmin != 2 or kw:
+        raise Unsupported('loadtxt without ndmin=2 (a one-row file would be read as a vector)')
+    from .core import Arr
+    n, cols = v[1], list(v[2])
+
+    def f(ix):
+        k = simp(ix[1])
+        if not isinstance(k, int):
+            raise Unsupported('symbolic column of a text table')
+        return cols[k](to_z3(ix[0]))
+    return Arr((n, len(cols)), f, 'float64', label='table2d')
+
+
+def unique_first_occurrence(L, a, axis):
+    """numpy.unique(a, return_index=True[, axis=0]) -> (values, index): ASSUMED numpy contract - `index` holds, in the order of
+    the sorted distinct values, the position of the first occurrence of each distinct row (element).  Ghost: FO, the increasing
+    enumeration of the first-occurrence positions (what numpy.sort(index) returns):
+        FO strictly increasing, in range; no earlier row equals row FO(j); every row t equals row FO(J(t)) with FO(J(t)) <= t."""
+    from .core import Arr, to_real
+    a = L.as_arr(a)
+    ctx = L.ctx
+    if a.ndim == 2 and axis == 0 and isinstance(simp(a.shape[1]), int):
+        w = simp(a.shape[1])
+        roweq = lambda s, t: z3.And(*[to_real(a.f((s, k))) == to_real(a.f((t, k))) for k in range(w)])
+        trig = lambda t: a.f((t, 0))
+    elif a.ndim == 1 and axis is None:
+        roweq = lambda s, t: to_real(a.f((s,))) == to_real(a.f((t,)))
+        trig = lambda t: a.f((t,))
+    else:
+        raise Unsupported('numpy.unique(return_index) of this shape / axis')
+    n = to_z3(a.shape[0])
+    U = ctx.fresh_int('n_unique')
+    FO = ctx.fresh_fun('first_occ', z3.IntSort(), z3.IntSort())
+    J = ctx.fresh_fun('occ_class', z3.IntSort(), z3.IntSort())
+    PERM = ctx.fresh_fun('unique_order', z3.IntSort(), z3.IntSort())
+    j, j2, t = z3.Ints('j!fo j2!fo t!fo')
+    ctx.fact(z3.And(U >= 0, U <= n))
+    ctx.fact(z3.ForAll([j], z3.Implies(z3.And(0 <= j, j < U), z3.And(0 <= FO(j), FO(j) < n)), patterns=[FO(j)]))
+    ctx.fact(z3.ForAll([j, j2], z3.Implies(z3.And(0 <= j, j < j2, j2 < U), FO(j) < FO(j2)), patterns=[z3.MultiPattern(FO(j), FO(j2))]))
+    ctx.fact(z3.ForAll([j, t], z3.Implies(z3.And(0 <= j, j < U, 0 <= t, t < FO(j)), z3.Not(roweq(t, FO(j)))),
+                       patterns=[z3.MultiPattern(FO(j), to_z3(trig(t)))]))
+    ctx.fact(z3.ForAll([t], z3.Implies(z3.And(0 <= t, t < n), z3.And(0 <= J(t), J(t) < U, FO(J(t)) <= t, roweq(FO(J(t)), t))),
+                       patterns=[J(t), to_z3(trig(t))]))
+    fo = Arr((U,), lambda ix: FO(to_z3(ix[0])), 'int64', label='first_occ')
+    ctx.fact(z3.ForAll([j], z3.Implies(z3.And(0 <= j, j < U), z3.And(0 <= PERM(j), PERM(j) < U)), patterns=[PERM(j)]))
+    idx = Arr((U,), lambda ix: FO(PERM(to_z3(ix[0]))), 'int64', label='unique_index')
+    idx.ghost['first_occ'] = fo
+    ctx.ghost.setdefault('first_occurrences', []).append(dict(U=U, FO=FO, J=J, n=n, roweq=roweq))
+    return (Opaque('unique_values'), idx)
+
+
+from . import models_sci     # noqa: E402,F401  (its numpy.unique cases are wrapped here)
+from .lib import MODELS      # noqa: E402
+_prev_unique_io = MODELS['numpy.unique']
+
+
+@model('numpy.unique')
+def _np_unique3(L, a, return_index=False, return_inverse=False, return_counts=False, axis=None, **kw):
+    if return_index and not (return_inverse or return_counts or kw):
+        return unique_first_occurrence(L, a, axis)
+    return _prev_unique_io(L, a, return_index=return_index, return_inverse=return_inverse, return_counts=return_counts, axis=axis, **kw)
